@@ -94,12 +94,19 @@ fn impl_add(jar: &MemJar, libs: &[MemJar], cal: &MMappings, maps: &MMappings, de
 /// slowly.  coq/C15/Run.v defines a pool of abbreviations `zN : str`; every string literal of a case
 /// is re-printed as a concatenation of pool entries (longest match first; a character outside the
 /// pool stays a one-element literal).  The pool is read from Run.v itself, so there is one table.
+/// the verification tree: $VERIF_ROOT, else the working directory when it is one (the driver starts
+/// the harness there), else /verif
+fn verif_root() -> std::path::PathBuf {
+	if let Ok(v) = std::env::var("VERIF_ROOT") { return v.into(); }
+	if let Ok(d) = std::env::current_dir() { if d.join("coq/C15/Run.v").exists() { return d; } }
+	"/verif".into()
+}
+
 struct Pool { entries: Vec<(Vec<u32>, String)> }
 impl Pool {
 	fn load() -> Pool {
-		let verif = std::env::var("VERIF_ROOT").unwrap_or_else(|_| "/verif".into());
 		let mut entries = vec![];
-		if let Ok(text) = std::fs::read_to_string(std::path::Path::new(&verif).join("coq/C15/Run.v")) {
+		if let Ok(text) = std::fs::read_to_string(verif_root().join("coq/C15/Run.v")) {
 			for line in text.lines() {
 				let Some(rest) = line.strip_prefix("Definition z") else { continue };
 				let Some((id, lit)) = rest.split_once(" : str := [") else { continue };
@@ -255,9 +262,8 @@ fn do_add(r: &mut Report, stream: &str, g: &JarGen, jar: &MemJar, libs: &[MemJar
 /// the fixed inputs: /repo's own fixture classes and the vendored javac bridge patterns, each
 /// `.spec` file one jar
 fn corpus(r: &mut Report, rng: &mut Rng) -> anyhow::Result<()> {
-	let verif = std::env::var("VERIF_ROOT").unwrap_or_else(|_| "/verif".into());
 	let repo = std::env::var("VERIF_REPO").unwrap_or_else(|_| "/repo".into());
-	let dir = std::path::Path::new(&verif).join("corpus/C15");
+	let dir = verif_root().join("corpus/C15");
 	let mut specs: Vec<_> = std::fs::read_dir(&dir)?.filter_map(|e| e.ok()).map(|e| e.path()).filter(|p| p.extension().map(|x| x == "spec").unwrap_or(false)).collect();
 	specs.sort();
 	for sp in specs {
@@ -337,13 +343,13 @@ fn big_corpus(r: &mut Report, rng: &mut Rng, thorough: bool) {
 fn run(ctx: &Ctx) -> anyhow::Result<Report> {
 	let mut r = Report::new("C15", "C15.Run");
 	r.shard_size = 60;
-	r.rule = "jars are class files assembled in memory (own JVMS assembler, harness/src/bin/c15/asm.rs) from an abstract description: acyclic hierarchies over a pool of 10 in-jar and 6 external class names, per class a few patterns — flagged bridges, unflagged synthetics with generalised (Object / ancestor / external / equal) parameter and return types, and the near-misses not-synthetic, zero / two / repeated / array-class callees, arity mismatch, incompatible type, void-vs-value, private|static|final with and without the bridge flag, no Code, delegate in another class — plus the vendored javac-17 bridge classes and /repo's fixtures (abstract view from javap). Mapping sets: calamus (official->intermediary) and mappings (intermediary->named) naming each class / method involved with a per-case probability, delegate entries with javadoc and parameters, bridge keys named only in a super type, unrelated entries; extra streams: duplicate class / method keys, exchanged namespace order, wrong namespace names. Distinct = distinct (abstract jar, libraries, mapping sets); non-trivial = the documented rule yields at least one bridge pair (and, for the insertion, the mappings are not empty).".into();
+	r.rule = "jars are class files assembled in memory (own JVMS assembler, harness/src/bin/c15/asm.rs) from an abstract description: acyclic hierarchies over a pool of 10 in-jar and 6 external class names, per class a few patterns — flagged bridges, unflagged synthetics with generalised (Object / ancestor / external / equal) parameter and return types, and the near-misses not-synthetic, zero / two / repeated / array-class callees, arity mismatch, incompatible type, void-vs-value, private|static|final with and without the bridge flag, no Code, delegate in another class — plus the vendored javac-17 bridge classes of corpus/C15 (covariant returns, parameters erased to Object and to a bound, interface bridges, bridges through several levels, visibility bridges, lambdas/enum synthetics; abstract view from javap, confirmed by the independent parser) with /repo's fixtures, and every directory of the shared corpus /verif/corpus/classes as one jar (abstract view from the independent parser fbh::classfile::raw; quick tier: the 40 first directories, bridge classes first). Mapping sets: calamus (official->intermediary) and mappings (intermediary->named) naming each class / method involved with a per-case probability, delegate entries with javadoc and parameters, bridge keys named only in a super type, unrelated entries; extra streams: duplicate class / method keys, exchanged namespace order, wrong namespace names. Distinct = distinct (abstract jar, libraries, mapping sets); non-trivial = the documented rule yields at least one bridge pair (and, for the insertion, the mappings are not empty).".into();
 	let mut rng = Rng::new(ctx.seed);
 
 	corpus(&mut r, &mut rng)?;
 	big_corpus(&mut r, &mut rng, ctx.thorough);
 
-	let n = if ctx.thorough { 3000 } else { 300 };
+	let n = if ctx.thorough { 2400 } else { 300 };
 	let mut counts: Vec<String> = vec![];
 	for i in 0..n {
 		let stream = match i % 20 { 0..=13 => "patterns", 14 | 15 => "large", 16 | 17 => "dups", 18 => "swapped", _ => "badns" };
